@@ -199,6 +199,50 @@ impl LoopRange {
     }
 
     ///
+    /// Add two ranges if the result can be represented
+    ///
+    /// Same as [add][Self::add] but returns None instead of panicking
+    /// if there's an arithmetic overflow.
+    ///
+    pub(crate) fn checked_add(&self, other: &LoopRange) -> Option<LoopRange> {
+        let i = self.start().checked_add(other.start())?;
+        if self.is_infinite() || other.is_infinite() {
+            Some(LoopRange::infinite(i))
+        } else {
+            let j = self.end().checked_add(other.end())?;
+            Some(LoopRange::finite(i, j))
+        }
+    }
+
+    ///
+    /// Product of two ranges if it is exact and can be represented
+    ///
+    /// Return `Some(self.mul(other))` if [right_mul_is_exact][Self::right_mul_is_exact] holds and the
+    /// product fits in 32 bits, and None otherwise. This never panics.
+    ///
+    pub(crate) fn checked_exact_mul(&self, other: &LoopRange) -> Option<LoopRange> {
+        let exact = other.is_point()
+            || if self.is_infinite() {
+                other.start() > 0 || self.start() <= 1
+            } else {
+                (other.start() as u64) * ((self.end() - self.start()) as u64)
+                    >= self.start().saturating_sub(1) as u64
+            };
+        if !exact {
+            None
+        } else if self.is_zero() || other.is_zero() {
+            Some(LoopRange::point(0))
+        } else if self.is_infinite() || other.is_infinite() {
+            let i = self.start().checked_mul(other.start())?;
+            Some(LoopRange::infinite(i))
+        } else {
+            let i = self.start().checked_mul(other.start())?;
+            let j = self.end().checked_mul(other.end())?;
+            Some(LoopRange::finite(i, j))
+        }
+    }
+
+    ///
     /// Add a point interval
     ///
     /// Add the point interval [x, x] to self.
